@@ -400,7 +400,9 @@ func (c *FnCtx) elemRegion(elemT types.Type) string {
 	if c.elemRange == nil {
 		c.elemRange = map[string]string{}
 	}
-	if _, seen := c.regSort[name]; !seen && c.sortOf(elemT) == SInt {
+	if _, seen := c.regSort[name]; !seen && c.sortOf(elemT) == SInt && name == "A_uint8" {
+		// only byte arrays: page images are reasoned about wholesale; other element types get
+		// their range facts at each load (a quantified axiom per region slows every query down)
 		if lo, hi, ok := intRange(elemT); ok {
 			// type invariant of every element of every array of this element type
 			c.elemRange[name] = "(forall ((q_r Int) (q_j Int)) (! (and (<= " + lo + " (select (select %s q_r) q_j)) (<= (select (select %s q_r) q_j) " + hi + ")) :pattern ((select (select %s q_r) q_j))))%.0s"
